@@ -253,6 +253,15 @@ def _cacg_log_pdf(cacg, y_unit):
     return cacg.log_pdf(y_unit[..., None, :, :])
 
 
+def stored_weight(name, model, shape):
+    """the stored mixture weights broadcast to the affiliation shape (..., K, N)"""
+    from pb_bss.utils import unsqueeze
+    w = model.weight
+    if name in INTEGRATION:
+        w = unsqueeze(w, model.weight_constant_axis)
+    return np.broadcast_to(np.asarray(w, dtype=float), shape)
+
+
 def bayes(lp, w, mask=None):
     """independent evaluation of Bayes' rule in the log domain"""
     from scipy.special import logsumexp
